@@ -77,7 +77,7 @@ TPoll ==
        /\ PollFailsWith(Ev, ts) = {}
        /\ CASE Ev.cond = "N" -> PollDeferWith(Ev.p, ts)
             [] Ev.cond = "F" -> PollQuietWith(Ev.p, ts)
-            [] Ev.cond = "T" -> PollInvokeWith(Ev.p, ts, Ev.upd, Ev.uid)
+            [] Ev.cond = "T" -> PollInvokeWith(Ev.p, ts, Ev.upd, Ev.uid, Ev.sop)
   /\ Adv
 
 AdvanceFails(e) ==
@@ -221,6 +221,8 @@ Silent ==
      \/ AdvanceJump
      \/ AdvanceEnd
      \/ ApplyDone
+     \* the update of a process deleted earlier in this batch may be discarded
+     \/ \E p \in due : DropDue(p)
      \/ StepsBegin
      \/ LayerOpen
      \/ StepsEnd
